@@ -13,6 +13,9 @@ policy), the metadata store refreshed in between (observe_life); most cases are 
 object.  Coq checks every call of a life (Corr.agrees / holds = forallb over the calls; Model.run_life,
 Spec.spec_life, theorems c10_life_*).
 
+Finding C10-F5 is OPEN (Corr.cls = 3): Policy.get_entity_categories trusts the FriendlyName of a required
+RequestedAttribute before its Name + NameFormat; with an ONLY_REQUIRED category the attribute the label names is released.
+
 Findings C10-F1 (best_effort hard-coded, MissingValue => unfiltered identity) and C10-F2 (entity
 categories skipped without a metadata store) are FIXED in /repo (a4e3dbdd, 47cc754e): Corr.cls still
 names the two input classes, and since findings/C10.json marks them fixed a case of either class whose
@@ -35,7 +38,7 @@ SHARD = 200
 IMPORTS = "From Verif Require Import C10.Model C10.Spec C10.Corr.\nFrom VerifGen Require Import C10Abbrev."
 CASE_TYPE = "C10.Corr.case"
 RUNNER = "C10.Corr.run"
-FINDING_CLASSES = {1: "C10-F1", 2: "C10-F2"}
+FINDING_CLASSES = {1: "C10-F1", 2: "C10-F2", 3: "C10-F5"}
 RULE = ("complete products: Policy.get precedence (presence of requester / registration-authority / 'default' / '' "
         "sections x known RA), RequestedAttribute name matching (name source 4 x NameFormat 4 x FriendlyName 4 x "
         "identity key form 4 x listed values 3), value filtering (identity value shape 5 x listed values 6 x "
@@ -74,6 +77,16 @@ RULE = ("complete products: Policy.get precedence (presence of requester / regis
         "changes while the requirement stays, requirement changes while the listing stays, a federation of 8 requesters "
         "on one object) forced into that neighbourhood; the attribute authority (create_attribute_response): the Server "
         "product without best_effort.  "
+        "THE FRIENDLYNAME IS A LABEL (round 6): how the Name of a RequestedAttribute resolves 5 (uri / basic / Name in capitals "
+        "/ NameFormat omitted / unknown Name) x what its FriendlyName says 9 (agrees / other case / absent / the name of "
+        "ANOTHER attribute the user holds, exact and in another case / of one the user lacks / of nothing / the wire Name of "
+        "another attribute / its own Name) x the user holds the declared attribute or not x required / optional, on a "
+        "Policy-level entry and a Server-level entry each; a required declared attribute that is not held while the labelled "
+        "one is x every source of the choice about failing 13 x entry point 4; listed values held under the declared / only "
+        "under the labelled name / nowhere; the labelled attribute declared as well; every ONLY_REQUIRED entity-category key "
+        "of the bundled modules x label 9 x labelled attribute in the category's list or not x declared attribute held or "
+        "not; 24 lives (the label changes between calls, the Name stays; with and without an ONLY_REQUIRED category); 150 "
+        "random cases relabelled with names of identity attributes.  "
         "non-trivial = distinct (entry point, "
         "best_effort / fail_on_missing argument, applicable section kind, restriction kind, entity-category mode, "
         "declaration shape, outcome) classes other than 'nothing configured, everything released'")
@@ -106,6 +119,10 @@ ASSUMPTIONS = ["attribute names, FriendlyNames and entity ids are ASCII (the mod
                "Server.create_attribute_response (attribute authority) is given a non-empty identity and no `attributes` "
                "argument; its outcome is judged as the Server entry without best effort (a MissingValue exception = the "
                "error; an AttributeStatement read back from the Response = the release)",
+               "what a RequestedAttribute DECLARES is the attribute identified by Name + NameFormat (the local name the "
+               "attribute maps derive from the lower-cased Name; enters as data, independent lookup in harness.c10.loc); its "
+               "FriendlyName is a label (SAML core 2.7.3.1) that stands in only when the maps do not know the Name; the Name "
+               "itself also designates an identity attribute (identities keyed by wire names)",
                "subject-id:req: what the requester requires is what the FIRST value of the merged entity attribute says "
                "(MetadataStore.subject_id_requirement); 'any' asks for pairwise-id AND subject-id (the code's reading)",
                "a life: the policy configuration of an object is fixed at construction; what the metadata store says about a "
@@ -1517,6 +1534,272 @@ def gen_life_sid(rng):
     return cases
 
 
+# ------------------------------------------------------------------------------ round 6: the FriendlyName is a LABEL
+LABEL_KINDS = ("agree", "case", "absent", "other", "other-case", "other-lacked", "unknown", "other-wire", "own-wire")
+NAME_KINDS = ("uri", "basic", "uri-upper", "nonf", "unknown")
+LABEL_N = ("givenName", "eduPersonPrincipalName", "mail", "sn", "cn")
+LABEL_OTHER = ("norEduPersonNIN", "mail", "title", "uid", "displayName")
+
+
+def label_ra(n, namekind, labelkind, other, values=(), isreq="true", real=True):
+    """A RequestedAttribute that DECLARES the attribute n by Name + NameFormat and carries a FriendlyName that
+    agrees / differs in case / is absent / is the local name of ANOTHER attribute (`other`: exact, other case) /
+    of an attribute nobody holds / the wire Name of the other attribute / its own Name.
+    namekind: uri, basic (the attribute maps resolve the Name), uri-upper (Name in capitals: the maps resolve the
+    lower-cased Name only), nonf (NameFormat omitted: the maps do NOT resolve it, the label is the fallback),
+    unknown (a Name no map knows: same)."""
+    kind = {"uri": "uri", "basic": "basic", "uri-upper": "uri", "nonf": "uri", "unknown": "unknown"}[namekind]
+    r = ra_for(n, kind, "right", values, isreq)
+    if namekind == "uri-upper":
+        r["name"] = r["name"].upper()
+    elif namekind == "nonf":
+        if real:
+            r["nf"], r["nf_render"] = UNSPEC, None
+        else:
+            r["nf"] = r["nf_render"] = None
+    r["friendly"] = {"agree": n, "case": n.swapcase(), "absent": None, "other": other, "other-case": other.swapcase(),
+                     "other-lacked": other, "unknown": "street", "other-wire": wire(other, URI) or other,
+                     "own-wire": r["name"]}[labelkind]
+    return r
+
+
+def _label_ident(n, other, holds_n, labelkind, server, extra=()):
+    ident = [("sn" if n != "sn" else "o", ["x"])]
+    if holds_n:
+        ident.append((n, ["v-" + n, "w"]))
+    if labelkind != "other-lacked":
+        key = other
+        if labelkind == "other-wire" and not server:
+            key = wire(other, URI) or other             # the identity keyed by the wire name
+        ident.append((key, ["o-" + other]))
+    ident.append(("eduPersonEntitlement", ["urn:x:secret"]))
+    return ident + list(extra)
+
+
+def _label_case(rng, tag, entry, ident, ras, pol, fail=True, fo=None, ecs=(), mode=None, label=None):
+    server = entry in ("server", "aa")
+    mode = "real" if server else (mode or "real")
+    req = [r for r in ras if r["isreq"] == "true"]
+    opt = [r for r in ras if r["isreq"] != "true"]
+    if entry == "foa":
+        c = mk_case(tag, "foa", ident, req=req, opt=opt, fail=fail, rng=rng)
+    elif entry == "filter":
+        md = mk_md(mode, [], None, list(ecs)) if ecs else rng.choice([None, mk_md(mode)])
+        c = mk_case(tag, "filter", ident, pol, md, req=req, opt=opt, rng=rng, fo=fo)
+    else:
+        kw = {"be": None if fo is None else (not fo)} if entry == "server" else {} if entry == "aa" else {"fo": fo}
+        c = mk_case(tag, entry, ident, pol, mk_md(mode, ras, None, list(ecs), split=rng.randrange(3)), rng=rng, **kw)
+    c["label"] = label
+    return c
+
+
+def gen_label(rng, thorough):
+    """The FriendlyName of a RequestedAttribute as a label that need not agree with what Name + NameFormat stand for.
+    A: how the Name resolves 5 x what the label says 9 x the user holds the declared attribute or not x required /
+       optional, each on one Policy-level entry (filter_on_attributes / Policy.filter / restrict / apply_policy, taking
+       turns) and one Server-level entry (create_authn_response / create_attribute_response);
+    B: the REQUIRED declared attribute is not held while the attribute the label names is - under every source of the
+       choice about failing 13 x entry point 4 (+ the control whose label agrees);
+    C: listed values (held under the declared name / only under the labelled name / nowhere);
+    D: the labelled attribute is ALSO declared, by its own Name (its release is then legitimate)."""
+    cases = []
+    pol_entries = ("foa", "filter", "restrict", "apply")
+    i = 0
+    for namekind in NAME_KINDS:
+        for labelkind in LABEL_KINDS:
+            for holds_n in (False, True):
+                for isreq in ("true", "false"):
+                    n = LABEL_N[i % len(LABEL_N)]
+                    other = [o for o in LABEL_OTHER if o != n][(i // 2) % (len(LABEL_OTHER) - 1)]
+                    fail = (None, True, False)[(i // 4) % 3]
+                    for entry in (pol_entries[(i + i // 4) % 4], ("server", "aa")[(i // 2) % 2]):
+                        server = entry in ("server", "aa")
+                        real = server or i % 3 != 0
+                        ras = [label_ra(n, namekind, labelkind, other, isreq=isreq, real=real),
+                               ra_for("sn" if n != "sn" else "o", "uri", "right", isreq="false")]
+                        if i % 2:
+                            ras.reverse()
+                        ident = _label_ident(n, other, holds_n, labelkind, server)
+                        pol = None if (i // 8) % 4 == 3 else [["default", mk_sec(None, fail)]]
+                        cases.append(_label_case(rng, "label", entry, ident, ras, pol, fail=fail is not False,
+                                                 mode="real" if real else "stub",
+                                                 label="%s/%s/%s/%s" % (namekind, labelkind, "held" if holds_n else "lacked",
+                                                                        "req" if isreq == "true" else "opt")))
+                    i += 1
+    # B: every source of the choice about failing
+    i = 0
+    for fname, pol, ra, fo in sid_fail_sources():
+        for entry in ("restrict", "apply", "server", "aa"):
+            if entry == "aa" and fo is not None:
+                continue
+            for labelkind in ("other", "agree", "other-case"):
+                n = LABEL_N[i % len(LABEL_N)]
+                other = [o for o in LABEL_OTHER if o != n][i % (len(LABEL_OTHER) - 1)]
+                ras = [ra_for("sn" if n != "sn" else "o", "uri", "right", isreq="false"),
+                       label_ra(n, ("uri", "basic")[i % 2], labelkind, other)]
+                ident = _label_ident(n, other, False, labelkind, True)
+                c = _label_case(rng, "label-fail-" + fname, entry, ident, ras, copy.deepcopy(pol), fo=fo,
+                                mode=("real", "stub")[i % 2], label="fail/%s" % labelkind)
+                if c["md"] is not None:
+                    c["md"]["ra"] = ra
+                cases.append(c)
+                i += 1
+    # C: listed values
+    i = 0
+    for labelkind in ("agree", "other", "absent"):
+        for vk in ("held-by-declared", "held-by-labelled", "nowhere"):
+            for holds_n in (False, True):
+                for isreq in ("true", "false"):
+                    n, other = "mail", "uid"
+                    v = {"held-by-declared": "v-mail", "held-by-labelled": "o-uid", "nowhere": "zzz"}[vk]
+                    entry = ("restrict", "server", "foa", "apply", "aa", "filter")[i % 6]
+                    ras = [label_ra(n, "uri", labelkind, other, [v], isreq)]
+                    ident = _label_ident(n, other, holds_n, labelkind, entry in ("server", "aa"))
+                    cases.append(_label_case(rng, "label-values", entry, ident, ras, [["default", mk_sec()]],
+                                             mode=("real", "stub")[i % 2], label="values/%s/%s" % (labelkind, vk)))
+                    i += 1
+    # D: the labelled attribute is declared as well
+    i = 0
+    for labelkind in ("other", "other-case"):
+        for own in ("true", "false"):
+            for holds_n in (False, True):
+                for entry in ("restrict", "server", "foa", "aa"):
+                    n, other = LABEL_N[i % len(LABEL_N)], "title"
+                    ras = [label_ra(n, "uri", labelkind, other, isreq="false"), ra_for(other, ("uri", "basic")[i % 2], "right", isreq=own)]
+                    if i % 2:
+                        ras.reverse()
+                    ident = _label_ident(n, other, holds_n, labelkind, entry in ("server", "aa"))
+                    cases.append(_label_case(rng, "label-also-declared", entry, ident, ras, [["default", mk_sec()]],
+                                             label="also/%s" % labelkind))
+                    i += 1
+    return cases
+
+
+def only_required_keys(thorough):
+    """[(module, key)] of the ONLY_REQUIRED categories of the bundled modules (quick tier: at most two per module)."""
+    out = []
+    for mod in EC_MODULES:
+        m = _ec_module(mod)
+        ks = [k for k in m.RELEASE if getattr(m, "ONLY_REQUIRED", {}).get(k, False)]
+        ks.sort(key=lambda k: isinstance(k, tuple))
+        if not thorough and len(ks) > 2:
+            ks = [ks[0], ks[-1]]
+        out.extend((mod, k) for k in ks)
+    return out
+
+
+def gen_label_ec(rng, thorough):
+    """Entity categories decide and the category is ONLY_REQUIRED: what the requester REQUIRES narrows the release.
+    Every ONLY_REQUIRED key of the bundled modules x what the label of the required attribute says 9 x the labelled
+    attribute is in the category's list or not x the user holds the declared attribute or not, required / optional,
+    how the Name resolves and the entry point (Policy.restrict / apply_policy / Policy.filter / the two Server entries)
+    taking turns."""
+    cases = []
+    i = 0
+    for mod, key in only_required_keys(thorough):
+        m = _ec_module(mod)
+        cats = [key] if isinstance(key, str) else list(key)
+        atlist = [a for a in m.RELEASE[key] if a.lower() not in SERVER_UNSAFE and (wire(a, URI) or wire(a, BASIC))]
+        low = {a.lower() for items in m.RELEASE.values() for a in items}
+        outside = [o for o in ("x-secret", "Foo", "title", "uid", "norEduPersonNIN") if o.lower() not in low]
+        for labelkind in LABEL_KINDS:
+            for other_in in (True, False):
+                for holds_n in (True, False):
+                    n = atlist[i % len(atlist)]
+                    other = ([a for a in atlist if a != n][(i // 3) % (len(atlist) - 1)]) if other_in else outside[i % len(outside)]
+                    thirds = [a for a in atlist if a not in (n, other)] or ["sn"]
+                    third = thirds[(i // 5) % len(thirds)]
+                    entry = ("restrict", "apply", "server", "filter", "aa", "restrict")[i % 6]
+                    server = entry in ("server", "aa")
+                    isreq = "false" if i % 7 == 6 else "true"
+                    namekind = ("uri", "uri", "basic", "uri-upper")[(i // 2) % 4]
+                    if namekind == "basic" and not wire(n, BASIC):
+                        namekind = "uri"
+                    real = server or i % 3 != 0
+                    ras = [label_ra(n, namekind, labelkind, other, isreq=isreq, real=real),
+                           ra_for(third, "uri", "right", isreq=("false", "true")[(i // 4) % 2])]
+                    if i % 2:
+                        ras.reverse()
+                    ident = _label_ident(n, other, holds_n, labelkind, server, extra=[(third, ["t"]), ("Foo", ["x"])])
+                    ident = list(dict(ident).items())
+                    pol = [["default", mk_sec(None, (None, False)[i % 2], [mod])]]
+                    cases.append(_label_case(rng, "label-ec", entry, ident, ras, pol, ecs=cats, mode="real" if real else "stub",
+                                             label="ec/%s/%s/%s" % (labelkind, "in" if other_in else "out",
+                                                                    "req" if isreq == "true" else "opt")))
+                    i += 1
+    return cases
+
+
+def gen_life_label(rng):
+    """Lives: ONE Policy / Server; the requester's RequestedAttribute keeps its Name while its label changes
+    (agrees -> names another attribute -> absent -> the other attribute in another case -> agrees), without and with an
+    ONLY_REQUIRED category in force; the user holds / lacks the declared attribute."""
+    cases = []
+    for host, store in life_hosts(rng):
+        mode = "stub" if store == "stub" else "real"
+        server = host == "server"
+        for mod, cats, n, other in ((None, [], "givenName", "norEduPersonNIN"), (None, [], "eduPersonPrincipalName", "mail"),
+                                    ("edugain", [_ec_module("edugain").COCO], "cn", "mail"),
+                                    ("harness.c10_ecmod", [_ec_module("harness.c10_ecmod").C], "displayName", "mail")):
+            for holds_n in (False, True):
+                ident = _label_ident(n, other, holds_n, "other", server)
+                order = ["agree", "other", "absent", "other-case", "agree", "other"]
+                mds_ = [mk_md(mode, [label_ra(n, "uri", lk, other, isreq="true", real=mode == "real"),
+                                     ra_for("sn", "uri", "right", isreq="false")], None, cats) for lk in order]
+                pol = [["default", mk_sec(None, rng.choice([None, False]) if mod else None, [mod] if mod else [])]]
+                steps = [life_step(rng, host, ident, SP, x, fo=rng.choice([None, None, False]), be=rng.choice([None, None, True]))
+                         for x in mds_]
+                c = mk_life("life-label" + ("-ec" if mod else ""), host, store, pol, steps, rng)
+                c["label"] = "life"
+                cases.append(c)
+    return cases
+
+
+def gen_random_label(rng, n):
+    """Random identities x policies x requester metadata, forced into the neighbourhood: RequestedAttributes are
+    relabelled with the name of another identity attribute / of a bundled attribute, now and then in another case."""
+    cases = []
+    for i in range(n):
+        entry = ("restrict", "apply", "server", "aa", "filter", "foa")[i % 6]
+        server = entry in ("server", "aa")
+        ident = rand_ident(rng, server=server, names=["mail", "sn", "givenName", "title", "norEduPersonNIN", "uid", "cn",
+                                                      "eduPersonPrincipalName", "displayName", "Foo"])
+        ident = [(k, v) for k, v in ident if k]
+        if not ident:
+            ident = [("mail", ["a@example.org"])]
+        ra_known = rng.choice([None, RA1])
+        pol = rand_pol(rng, ident, ra_known, ec_p=0.25)
+        if pol and rng.random() < 0.3:
+            for _, sec in pol:
+                if sec and sec["ecs"]:
+                    sec["ecs"] = [rng.choice(["edugain", "harness.c10_ecmod", "swamid"])]
+        md = rand_md(rng, ident, pol, mode="real" if server else None)
+        real = md["mode"] == "real"
+        ras = md["ras"] or [rand_ra(rng, [k for k, _ in ident], real)]
+        md["ras"] = ras
+        md["sid"] = None if rng.random() < 0.8 else md["sid"]
+        for r in ras:
+            if rng.random() < 0.65:
+                lab = rng.choice([k for k, _ in ident] + ["mail", "norEduPersonNIN", "cn"])
+                r["friendly"] = lab if rng.random() < 0.75 else rng.choice(variants(lab))
+        if ra_known and rng.random() < 0.6:
+            md["ra"] = ra_known
+        fo = rng.choice([None, None, None, True, False])
+        if entry in ("foa", "filter"):
+            req, opt = md_split(md)
+            if entry == "foa":
+                c = mk_case("rand-label", "foa", ident, req=req, opt=opt, fail=rng.random() < 0.6, rng=rng)
+            else:
+                md2 = dict(md, ras=[])
+                c = mk_case("rand-label", "filter", ident, pol, md2 if rng.random() < 0.8 else None, req=req, opt=opt, rng=rng, fo=fo)
+        else:
+            kw = {"be": rng.choice([None, False, True])} if entry == "server" else {} if entry == "aa" else {"fo": fo}
+            c = mk_case("rand-label", entry, ident, pol, md, rng=rng, **kw)
+        c["label"] = "random"
+        cases.append(c)
+    return cases
+
+
 def gen_random(rng, n, entries):
     cases = []
     for i in range(n):
@@ -1950,6 +2233,11 @@ def generate(ctx):
     cases += aa_product(rng)
     cases += gen_random_sid(rng, 900 if t else 150)
     cases += gen_life_sid(rng)
+    # round 6 (appended): the FriendlyName of a RequestedAttribute is a label
+    cases += gen_label(rng, t)
+    cases += gen_label_ec(rng, t)
+    cases += gen_life_label(rng)
+    cases += gen_random_label(rng, 900 if t else 150)
     return cases
 
 
@@ -1980,7 +2268,7 @@ def nontrivial(case, obs):
                         o["out"]["k"], rel))
             seen[st["sp"]] = (st["md"], names)
         ec = any(s_ and s_["ecs"] for _, s_ in (pol or []))
-        return ("life", case["host"], case["store"], ec, len(pol or []), sig)
+        return ("life", case["host"], case["store"], ec, len(pol or []), sig) + ((case["label"],) if case.get("label") else ())
     seckinds = tuple(sorted((("sp" if w == SP else "ra" if w in (RA1, RA2) else w if w in ("default", "") else "other"),
                              None if s is None else (bool(s["ar"]), s["fail"], bool(s["ecs"]))) for w, s in (pol or [])))
     md = case["md"]
@@ -1992,15 +2280,18 @@ def nontrivial(case, obs):
     shrunk = out == "ok" and sorted(map(str, obs["out"]["ava"])) != sorted(map(str, obs["caller"]))
     if not pol and decl is None and not shrunk and out == "ok":
         return None
-    return (case["entry"], case.get("be"), case.get("fo"), seckinds if len(seckinds) <= 2 else len(seckinds), decl, out,
-            shrunk)
+    key = (case["entry"], case.get("be"), case.get("fo"), seckinds if len(seckinds) <= 2 else len(seckinds), decl, out,
+           shrunk)
+    # round 6: what the label of the RequestedAttribute says / how its Name resolves is a dimension of its own
+    return key + ((case["label"],) if case.get("label") not in (None, "random") else ())
 
 
 def histogram(cases, observed):
     h = {"by_tag": {}, "by_entry": {}, "outcome": {}, "exceptions": {}, "store": {}, "released_fraction": {},
          "str_valued_attrs": 0, "repeated_values": 0, "ec_sections": 0, "regex_sections": 0,
          "server_best_effort_x_outcome": {}, "fail_on_missing_arg_x_outcome": {}, "nostore_with_entity_categories": {},
-         "attribute_authority_outcome": {}, "subject_id_req_x_own_listing_x_outcome": {}}
+         "attribute_authority_outcome": {}, "subject_id_req_x_own_listing_x_outcome": {},
+         "friendly_name_label_x_outcome": {}, "requested_attributes_label_names_another_held_attribute": 0}
     h["lives"] = {"calls": 0, "by_host_store": {}, "length": {}, "store_refreshed_before_call": 0, "refresh_kind": {},
                   "second_requester_calls": 0, "release_vs_previous_call_same_requester": {}, "call_entry": {},
                   "call_outcome": {}}
@@ -2037,6 +2328,15 @@ def histogram(cases, observed):
             continue
         k = o["out"]["k"]
         h["outcome"][k] = h["outcome"].get(k, 0) + 1
+        if c.get("label"):
+            lk = c["label"].split("/")
+            key = "%s %s -> %s" % (c["tag"] if len(lk) < 2 else lk[0] + ":" + lk[1], c["entry"], k)
+            h["friendly_name_label_x_outcome"][key] = h["friendly_name_label_x_outcome"].get(key, 0) + 1
+        held = {kk.lower() for kk, _ in c["ident"]}
+        for r in list((c["md"] or {}).get("ras") or []) + list(c["req"]) + list(c["opt"]):
+            l_ = loc(r["name"].lower(), r["nf"])
+            if r["friendly"] and l_ and r["friendly"].lower() != l_.lower() and r["friendly"].lower() in held:
+                h["requested_attributes_label_names_another_held_attribute"] += 1
         if k == "crash":
             h["exceptions"][o["out"]["exc"]] = h["exceptions"].get(o["out"]["exc"], 0) + 1
         st = "none" if c["md"] is None else c["md"]["mode"]
